@@ -134,7 +134,7 @@ class Rig:
     def build(self, scn, enc_how="lsqpack"):
         """The bytes of the stream under test: (payload, length of each frame's
         share of it, deliverable, bytes of the peer's QPACK encoder stream,
-        whether a PUSH_PROMISE block depends on them).  Deliverable = an
+        whether a PUSH_PROMISE block depends on them, how many blocks do).  Deliverable = an
         independent QPACK decoder turns every block back into the list it was
         made from."""
         sid = 0 if scn["chan"] == "request" else 15
@@ -142,7 +142,7 @@ class Rig:
         dec = self.pylsqpack.Decoder(4096, 16)
         estream = enc.apply_settings(max_table_capacity=4096, blocked_streams=16) if enc_how == "dynamic" else b""
         prefix = varint(1) + varint(0) if scn["chan"] == "push" else b""   # stream type PUSH, push id 0
-        parts, blocks, bp = [], [], False
+        parts, blocks, bp, dyn = [], [], False, 0
         for f in scn["frames"]:
             if f["t"] == "D":
                 parts.append(frame(FT_DATA, b"x" * f["n"]))
@@ -151,7 +151,9 @@ class Rig:
             block, more = self.encode_block(enc, sid, headers, enc_how)
             estream += more
             blocks.append((block, headers))
-            bp = bp or (f["t"] == "P" and block[:1] != b"\x00")      # required insert count > 0
+            if block[:1] != b"\x00":                                # required insert count > 0
+                dyn += 1
+                bp = bp or f["t"] == "P"
             parts.append(frame(FT_HEADERS, block) if f["t"] == "H" else frame(FT_PUSH_PROMISE, varint(1) + block))
         ok = True
         try:
@@ -164,7 +166,7 @@ class Rig:
             ok = False
         if parts:
             parts[0] = prefix + parts[0]
-        return b"".join(parts), [len(x) for x in parts], ok, estream, bp
+        return b"".join(parts), [len(x) for x in parts], ok, estream, bp, dyn
 
     def run(self, scn, cuts, enc_how="lsqpack", built=None):
         """Replay one scenario.  `cuts` = chunk sizes of the stream under test
@@ -172,7 +174,7 @@ class Rig:
         arrives after the stream under test (whose header blocks wait for it).
         Returns the record for TraceHeaderRules."""
         role, chan, fin = scn["role"], scn["chan"], scn["fin"]
-        payload, _, ok, estream, bp = built or self.build(scn, enc_how)
+        payload, _, ok, estream, bp = (built or self.build(scn, enc_how))[:5]
         q = FakeQuic(self.cfg[role])
         h3 = self.h3c.H3Connection(q)
         peer_encoder_stream = None
@@ -482,12 +484,13 @@ def run(check):
         if not built[2]:
             skipped["Q"] = skipped.get("Q", 0) + 1
             continue
-        waited += any(p[:1] != b"\x00" for p in [built[0]]) and bool(built[3])
+        waited += built[5] > 0
         for mode in (("whole",) if quick else ("whole", "bytes")):
             cuts = cuts_for(built, mode, rnd)
             records.append(rig.run(scn, cuts, "dynamic", built=built))
             metas.append({"cuts": cuts, "enc": "dynamic", "family": "Q/" + mode})
     fam_counts["Q"] = len(qcases)
+    check.cov["Q_scenarios_with_a_block_waiting_for_the_encoder_stream"] = waited
     lap("replay_Q")
     check.cov["tlc_enumerated_scenarios"] = fam_counts
 
